@@ -151,6 +151,8 @@ class C10(Prop):
             if b == "unmodelled":
                 if kind in ("f", "f2") and not any(f in must for f in fns) and fns[0] not in self.H_TOL:
                     continue
+                if kind == "sample" and fns[0] in ("esl_sxp_Sample", "esl_gam_Sample", "esl_lognormal_Sample"):
+                    continue
             tol = None
             if kind == "mix":
                 tol = self.H_TOL["mixinv"] if kv.get("fn") == "invcdf" else self.H_TOL.get(kv.get("fam"))
@@ -288,6 +290,9 @@ class C10(Prop):
         if fam in ("sxp", "gam"):
             for p in [0.5, rng.random(), rng.choice([1e-6, 1e-3, 0.01, 0.1, 0.9, 0.99, 0.999999])]:
                 ops.append(op_f(pre + "invcdf", [p] + par))
+        if samples and fam in ("sxp", "gam", "lognormal") and rng.random() < 0.5:
+            # samplers that do not go by inversion (esl_rnd_Gamma / esl_rnd_Gaussian): Kolmogorov-Smirnov against the closed-form cdf
+            ops.append("sample fn=%sSample seed=%d k=400 a=%s" % (pre, rng.randrange(1, 2 ** 32), ",".join(dhex(v) for v in par)))
         if samples and fam in ("exp", "gumbel", "gev", "wei"):
             seed = rng.choice([1, 42, 2 ** 32 - 1, rng.randrange(1, 2 ** 32)])
             k = rng.choice([1, 3, 8])
@@ -414,6 +419,17 @@ class C10(Prop):
                     for w in xn:
                         ops.append(op_f(pre + w, [x, mu, lam] + shp))
                 out.append({"name": "bound-%s-%r-%r" % (fam, shp, mu), "ops": ops})
+        # documented edge values with an exact expectation (monitor compares bit patterns)
+        INF = math.inf
+        exp_cases = []
+        for mu in (0.0, 3.0):         # "any lambda > 0 is valid... including infinity" (esl_exponential.c): logpdf must not be NaN
+            exp_cases += [(op_f("esl_exp_logpdf", [mu - 1.0, mu, INF]), -INF), (op_f("esl_exp_logpdf", [mu, mu, INF]), INF),
+                          (op_f("esl_exp_logpdf", [mu + 1.0, mu, INF]), -INF),
+                          (op_f("esl_exp_invcdf", [0.0, mu, 2.0]), mu), (op_f("esl_wei_invcdf", [0.0, mu, 2.0, 0.7]), mu)]
+        for w, v in (("cdf", math.exp(-1.0)), ("logcdf", -1.0), ("pdf", math.exp(-1.0)), ("logpdf", -1.0),
+                     ("surv", 1 - math.exp(-1.0)), ("logsurv", math.log(1 - math.exp(-1.0)))):
+            exp_cases.append((op_f("esl_gev_" + w, [0.0, 0.0, 1.0, 0.0]), v))      # alpha = 0 exactly: the Gumbel (mixgev's default)
+        out.append({"name": "exact-edges", "ops": [o for o, _ in exp_cases], "expect": [dhex(v) for _, v in exp_cases]})
         for key, ops in REGRESSION:
             out.append({"name": "fixed-" + key, "ops": ops})
         out.append({"name": "fixed-gev-log1p", "ops": [op_f("esl_gev_" + w, [x, 0.0, 1.0, al]) for al in (1e-12, -1e-12, 1.5e-12, 1e-10)
@@ -463,6 +479,11 @@ class C10(Prop):
 
     def monitor_inner(self, ctx, case, out):
         ops = case["ops"]
+        if "expect" in case and len(case["expect"]) == len(ops):       # (a shrunk case no longer lines up: skip)
+            for op, want, line in zip(ops, case["expect"], out):
+                if line != "ok " + want:
+                    return Failure("monitor", "%s returned %s, documented value %r" % (op, line, unhex(want)))
+            return None
         pts = {}          # (fam, params bits) -> {x: {which: value}}
         widths = {}       # same keys -> width of the closed form's band (conditioning)
         uni = {}
@@ -571,6 +592,22 @@ class C10(Prop):
                         return Failure("monitor", "%s(%s(x)) = %r for x = %r, parameters %r" % (g, f, r, x, a[1:]))
             elif kind == "unipos":
                 uni[(kv["seed"], kv["k"])] = res
+            elif kind == "sample" and kv["fn"] in ("esl_sxp_Sample", "esl_gam_Sample", "esl_lognormal_Sample"):
+                fam, _ = R.split_fn(kv["fn"])
+                xs = sorted(res)
+                n = len(xs)
+                if n >= 100:
+                    if fam == "lognormal":
+                        cdf = lambda z: float(R.mpmath.erfc(-(R.mpmath.log(z) - a[0]) / (a[1] * R.mpmath.sqrt(2))) / 2) if z > 0 else 0.0
+                    else:
+                        cdf = lambda z: float(R.reference_all(fam, "x", [z] + a)["cdf"][0])
+                    # binary64 cannot hold mu + (offsets below ulp(mu)): esl_gam_Sample redraws those; only test where that
+                    # mass is negligible
+                    resolvable = fam == "lognormal" or a[0] == 0.0 or cdf(nextafter(a[0], 16)) < 1e-3
+                    D = max(max(abs((i + 1) / n - c), abs(i / n - c)) for i, c in enumerate(cdf(z) for z in xs))
+                    if resolvable and not (D <= 2.8 / math.sqrt(n)):      # asymptotic tail probability ~ 3e-7
+                        return Failure("monitor", "%s: %d samples (seed %s, parameters %r) are not distributed by the family's cdf: "
+                                       "Kolmogorov-Smirnov D = %.3f > %.3f" % (kv["fn"], n, kv["seed"], a, D, 2.8 / math.sqrt(n)))
             elif kind == "sample":
                 us = uni.get((kv["seed"], kv["k"]))
                 fam, _ = R.split_fn(kv["fn"])
